@@ -15,7 +15,7 @@ RULE = (
     "versions): id requests from different requesters, presentations of arbitrary node ids 0..255 (biased to "
     "0, 1, 253, 254, 255 and to max+1), other traffic, periodic-save ticks (fake timer fired by the harness; some of them refused because the storage is not writable at that moment, or failing with an I/O error at a drawn file operation) and "
     "stop()/restart cycles (new gateway object on the same file, start_persistence()). History invariant over "
-    "the emitted lines: every id response carries 1 <= id <= 254, id not among the nodes known at that moment, "
+    "the emitted lines: every id response carries 1 <= id <= 254, id not among the nodes known at that moment (the gateway's table) nor among the nodes that presented themselves since the last restart (tracked by the harness), "
     "id not handed out earlier in the whole history including previous lifetimes; a request may stay unanswered "
     "only when the largest known id is 254 or more. Non-trivial = >= 2 id requests separated by a presentation "
     "that jumps the id space or by a restart; distinct by hash of the sequence."
